@@ -49,7 +49,7 @@ class Prop:
                 return
             if ok:
                 for k, v in sorted(node.get("a", {}).items()):
-                    if isinstance(v, dict) and "k" in v and node["op"] not in ("finally_action", "do_finally"):
+                    if isinstance(v, dict) and "k" in v and node["op"] not in ("finally_action", "do_finally") and k != "fin":
                         out.append("%s.%s" % (node["id"], k))
             # below a time-shifting operator the root's terminal may be delivered later than it was decided,
             # which makes "the fault fired before the pipeline ended" unobservable: not faulted
